@@ -22,6 +22,9 @@ func init() { register("C17", c17) }
 const armPkg = "internal/arch/arm64asm"
 
 // identifiers that goom exported / renamed relative to the reference copy
+// canonRename is the identifier map in force (the arm64 one unless a caller swaps it for the duration of its comparison).
+var canonRename = c17Rename
+
 var c17Rename = map[string]string{"Sys": "sys", "Sys_AT": "sys_AT", "Sys_DC": "sys_DC", "Sys_IC": "sys_IC", "Sys_TLBI": "sys_TLBI", "Sys_SYS": "sys_SYS"}
 
 // canon renders an AST node without positions/comments, literals by value, identifiers through the rename map.
@@ -119,7 +122,7 @@ func canonW(sb *strings.Builder, v reflect.Value) {
 			switch x := v.Interface().(type) {
 			case *ast.Ident:
 				name := x.Name
-				if r, ok := c17Rename[name]; ok {
+				if r, ok := canonRename[name]; ok {
 					name = r
 				}
 				if canonSide != nil && (x.Obj == nil || x.Obj.Kind == ast.Con) {
@@ -145,6 +148,14 @@ func canonW(sb *strings.Builder, v reflect.Value) {
 				return
 			case *ast.ParenExpr:
 				canonW(sb, reflect.ValueOf(x.X))
+				return
+			case *ast.IncDecStmt:
+				// x++ is x += 1
+				tok := token.ADD_ASSIGN
+				if x.Tok == token.DEC {
+					tok = token.SUB_ASSIGN
+				}
+				canonW(sb, reflect.ValueOf(&ast.AssignStmt{Lhs: []ast.Expr{x.X}, Tok: tok, Rhs: []ast.Expr{&ast.BasicLit{Kind: token.INT, Value: "1"}}}))
 				return
 			case *ast.CallExpr:
 				if lit, ok := errCtor(x); ok {
@@ -226,7 +237,7 @@ func parseDecls(dir string, skip map[string]bool) (*declSet, error) {
 				switch x := d.(type) {
 				case *ast.FuncDecl:
 					name := x.Name.Name
-					if r, ok := c17Rename[name]; ok {
+					if r, ok := canonRename[name]; ok {
 						name = r
 					}
 					if x.Recv != nil && len(x.Recv.List) > 0 {
@@ -236,7 +247,7 @@ func parseDecls(dir string, skip map[string]bool) (*declSet, error) {
 						}
 						if id, ok := rt.(*ast.Ident); ok {
 							rn := id.Name
-							if r, ok := c17Rename[rn]; ok {
+							if r, ok := canonRename[rn]; ok {
 								rn = r
 							}
 							name = rn + "." + name
@@ -250,7 +261,7 @@ func parseDecls(dir string, skip map[string]bool) (*declSet, error) {
 							for i, nm := range s.Names {
 								if i < len(s.Values) {
 									n := nm.Name
-									if r, ok := c17Rename[n]; ok {
+									if r, ok := canonRename[n]; ok {
 										n = r
 									}
 									ds.values[n] = s.Values[i]
@@ -264,7 +275,7 @@ func parseDecls(dir string, skip map[string]bool) (*declSet, error) {
 							}
 						case *ast.TypeSpec:
 							n := s.Name.Name
-							if r, ok := c17Rename[n]; ok {
+							if r, ok := canonRename[n]; ok {
 								n = r
 							}
 							ds.types[n] = s.Type
